@@ -26,6 +26,9 @@ type GuardEngine struct {
 	sends map[FieldKey][]sendSite
 	store map[FieldKey][]*ssa.Store
 	Depth int
+	// AllSites: requirements are checked at every call site in library code, not only at
+	// those passing request-derived values
+	AllSites bool
 }
 
 type sendSite struct {
@@ -372,7 +375,7 @@ func (e *GuardEngine) supplySites(fn *ssa.Function) []supplySite {
 			if _, isGo := edge.Site.(*ssa.Go); isGo {
 				// arguments of a go statement are evaluated at the go statement
 			}
-			if !anyT {
+			if !anyT && !e.AllSites {
 				continue
 			}
 			// free variables of a closure called here: resolved at the creation site below
